@@ -1,7 +1,8 @@
 """C15 — mutable DOM vs. a plain array/map model: aliasing clause and panic-shape rules."""
 import collections
+import re
 from ..facts import callee_is, op_local, op_place, op_int, FactError, fmt_place
-from ..analysis import backward_slice, forward_derived, switch_edges, rv_places
+from ..analysis import backward_slice, forward_derived, switch_edges, rv_places, bool_switch_edges
 from .c01 import short
 
 EXPLANATION = (
@@ -200,4 +201,175 @@ def r15_4(ctx):
     ctx.floor("R15.4", "switches on the value representation", n, 15)
 
 
-RULES = [("R15.1", r15_a), ("R15.2", r15_2), ("R15.3", r15_3), ("R15.4", r15_4)]
+FACADES = {"sonic_rs::value::array::Array": ("array", "is_array", ("new_array", "new_array_with")),
+           "sonic_rs::value::object::Object": ("object", "is_object", ("new_object", "new_object_with"))}
+KIND_CHANGERS = ("take", "replace", "swap", "write", "write_unaligned", "drop_in_place", "clone_from", "set_null", "mark_root", "mark_shared")
+
+
+def _facade_ty(ty):
+    t = re.sub(r"^(&(\'\w+ )?(mut )?)+", "", ty or "")
+    for adt in FACADES:
+        if t == adt.replace("sonic_rs::", ""):
+            return adt
+    return None
+
+
+def _inner_place(f, p):
+    """is place p exactly the inner Value (.0) of an Array/Object facade held in a local?"""
+    pr = [e for e in p[1] if e != "*"]
+    if len(pr) == 1 and isinstance(pr[0], list) and pr[0][0] == "." and pr[0][2] == "0":
+        return _facade_ty(f.locals[p[0]]["ty"])
+    return None
+
+
+def _kind_established(f, l, adt, b):
+    """why the value in local l is known to be of the facade's kind at block b (None if it is not)"""
+    kind, test, ctors = FACADES[adt]
+    src = f.src(l) if l is not None else ("multi",)
+    if src[0] == "call":
+        t = src[2]
+        nm = t["callee"].rsplit("::", 1)[-1]
+        a0ty = (t.get("argtys") or [""])[0]
+        if nm in ctors:
+            return f"built by Value::{nm}"
+        if nm in ("into", "from") and "node::Value" in (t.get("dty") or "") and kind == "array" and a0ty.startswith(("alloc::vec::Vec<", "&[")):
+            return f"typed conversion of a sequence ({a0ty} -> Value builds an array)"
+        if nm == "from_iter" and "for value::node::Value" in t["callee"] and (("FromIterator<(" in t["callee"]) == (kind == "object")):
+            return f"collected by the {kind}-building FromIterator impl of Value"
+        if nm in ("clone", "take", "replace") and t["args"]:
+            a = op_local(t["args"][0])
+            sa = f.src(a) if a is not None else ("multi",)
+            if sa[0] == "place" and _inner_place(f, sa[1]) == adt:
+                return f"{nm} of the inner value of the same facade"
+    for bb, t in f.calls():
+        if not callee_is(t, test):
+            continue
+        a = op_local(t["args"][0])
+        sa = f.src(a) if a is not None else ("multi",)
+        same = sa == src or (sa[0] == "refof" and (sa[1] == l or f.src(sa[1]) == src))
+        if not same and sa[0] == "refof":
+            d = f.single_def(l)
+            same = bool(d and d[0] == "stmt" and d[3]["rv"]["k"] == "use" and op_local(d[3]["rv"]["op"]) == sa[1])
+        e = bool_switch_edges(f, t["dest"][0])
+        if same and e and e[0] != e[1] and f.dominates(e[0], b):
+            return f"guarded by {test}() on the value being wrapped"
+    return None
+
+
+def r15_5(ctx):
+    """typestate of the facades: Array(v) / Object(v) always wrap a value of that kind"""
+    prog = ctx.prog()
+    nsite = 0
+    seen = collections.Counter()
+    for f in prog.fns.values():
+        if f.crate != "sonic_rs":
+            continue
+        for b, i, s in f.assigns():
+            rv = s["rv"]
+            if not (rv["k"] == "agg" and rv.get("adt") in FACADES):
+                continue
+            nsite += 1
+            kind, test, ctors = FACADES[rv["adt"]]
+            why = _kind_established(f, op_local(rv["f"][0]), rv["adt"], b)
+            owner = prog.fns.get(f.parent_fn, f) if f.parent_fn else f
+            seen[short(owner.id)] += 1
+            ctx.ob("R15.5", f"construct:{short(owner.id)}#{seen[short(owner.id)]}", why is not None, f.loc(s.get("ln")),
+                   f"{rv['adt'].rsplit('::', 1)[-1]}(v): v is {why}" if why else
+                   f"{rv['adt'].rsplit('::', 1)[-1]}(v) wraps a value whose kind is not established ({kind} constructor, typed conversion or dominating {test}() test): every method of the facade panics on it")
+    ctx.floor("R15.5", "facade construction sites", nsite, 10)
+    # no kind-changing operation on the inner value of a facade
+    nref = 0
+    bad = []
+    for f in prog.fns.values():
+        if f.crate != "sonic_rs":
+            continue
+        inner = {}
+        for b, i, s in f.assigns():
+            rv = s["rv"]
+            if rv["k"] in ("ref", "rawptr") and rv.get("mut") and _inner_place(f, rv["p"]):
+                inner[s["lhs"][0]] = _inner_place(f, rv["p"])
+            adt = _inner_place(f, s["lhs"]) if s["lhs"][1] else None
+            if adt:
+                # whole-value store into facade.0
+                l = op_local(rv["op"]) if rv["k"] == "use" else None
+                if _kind_established(f, l, adt, b) is None:
+                    bad.append((f, s, "store", adt))
+        nref += len(inner)
+        for b, t in f.calls():
+            nm = t["callee"].rsplit("::", 1)[-1]
+            if nm not in KIND_CHANGERS or not t["args"]:
+                continue
+            # only the destination position matters
+            a0 = op_local(t["args"][0])
+            adt = inner.get(a0)
+            if adt is None and a0 is not None:
+                sa = f.src(a0)
+                if sa[0] == "place":
+                    adt = _inner_place(f, sa[1])
+            if adt is None and nm == "swap" and len(t["args"]) > 1:
+                adt = inner.get(op_local(t["args"][1]))
+            if adt is None:
+                continue
+            if nm == "replace" and len(t["args"]) > 1 and _kind_established(f, op_local(t["args"][1]), adt, b):
+                continue
+            if nm == "swap" and all(inner.get(op_local(a)) == adt for a in t["args"]):
+                continue
+            bad.append((f, t, nm, adt))
+    ctx.floor("R15.5", "mutable borrows of a facade's inner value", nref, 15)
+    cnt = collections.Counter()
+    for f, t, nm, adt in bad:
+        owner = prog.fns.get(f.parent_fn, f) if f.parent_fn else f
+        cnt[short(owner.id)] += 1
+        ctx.ob("R15.5", f"kind-change:{short(owner.id)}:{nm}#{cnt[short(owner.id)]}", False, f.loc(t.get("ln")),
+               f"{nm} on the inner value of an {adt.rsplit('::', 1)[-1]} puts a value of unestablished kind in its place (take() leaves null): the facade's methods then panic and the value no longer matches the model")
+    ctx.ob("R15.5", "inner-value-keeps-its-kind", not bad, "", f"{nref} mutable borrows of Array.0 / Object.0: none is passed to take / replace / swap / write / clone_from with a value of unestablished kind, and no store replaces the inner value by one")
+
+
+def r15_6(ctx):
+    """a caller-supplied position never indexes the element storage unguarded (outside Index/IndexMut, whose contract is Vec's)"""
+    prog = ctx.prog()
+    n = 0
+    seen = collections.Counter()
+    for f in prog.fns.values():
+        if f.crate != "sonic_rs" or not any(m in f.id for m in ("value::array::", "value::object::", "value::node::Value::", "value::array::Array", "value::object::Object")):
+            continue
+        owner = prog.fns.get(f.parent_fn, f) if f.parent_fn else f
+        if (owner.trait or "").endswith(("ops::index::Index", "ops::index::IndexMut")) or (owner.trait or "").startswith("core::ops::index::Index"):
+            continue
+        if "ops::index::Index" in owner.id:
+            continue
+        for b, t in f.calls():
+            nm = t["callee"].rsplit("::", 1)[-1]
+            if nm not in ("index", "index_mut") or len(t["args"]) < 2 or not any(x in (t.get("argtys") or [""])[0] for x in ("[value::node::Value]", "Vec<value::node::Value>", "[(value::node::Value, value::node::Value)]")):
+                continue
+            il = op_local(t["args"][1])
+            if il is None:
+                continue
+            sl, leaves = backward_slice(f, [il])
+            params = sorted({lf[1] for lf in leaves if lf[0] == "param" and f.locals[lf[1]]["ty"] in ("usize", "u32", "u64", "isize")})
+            if not params:
+                continue
+            n += 1
+            clamped = any(lf[0] == "call" and lf[2]["callee"].rsplit("::", 1)[-1] in ("min", "clamp") for lf in leaves) and any(lf[0] == "call" and callee_is(lf[2], "len") for lf in leaves)
+            guarded = False
+            for bb, tt in f.terms():
+                if tt["k"] != "switch" or bb == b or not f.dominates(bb, b):
+                    continue
+                dl = op_local(tt["discr"])
+                if dl is None:
+                    continue
+                s2, lv2 = backward_slice(f, [dl])
+                if set(params) & {lf[1] for lf in lv2 if lf[0] == "param"} and any(lf[0] == "call" and callee_is(lf[2], "len") for lf in lv2):
+                    # the index site lies on one side only
+                    tg = {x for _, x in tt["targets"]} | {tt["otherwise"]}
+                    if len(tg) >= 2 and any(b not in f.reachable_from(x) for x in tg):
+                        guarded = True
+            seen[short(owner.id)] += 1
+            ok = guarded or clamped
+            ctx.ob("R15.6", f"{short(owner.id)}#{seen[short(owner.id)]}", ok, f.loc(t["ln"]),
+                   f"element storage indexed by caller-supplied {[f.locals[p_].get('name', p_) for p_ in params]}: " + ("compared with len() on a dominating branch" if guarded else "clamped to len()" if clamped else
+                   "no dominating comparison with len(): an out-of-range position panics where the model (Vec) returns normally or reports None"))
+    ctx.floor("R15.6", "storage index sites fed by a caller-supplied position", n, 1)
+
+
+RULES = [("R15.1", r15_a), ("R15.2", r15_2), ("R15.3", r15_3), ("R15.4", r15_4), ("R15.5", r15_5), ("R15.6", r15_6)]
